@@ -44,6 +44,7 @@ type loopInfo struct {
 	allocs  bool
 	sLocs   map[string][]string // kind -> head-evaluable written locations
 	sWins   []window
+	kindSet map[string]bool
 	decrAt  []string // variant terms at head
 }
 
